@@ -51,6 +51,7 @@ func c15Plugin(c c15Case, cur *[]system.Route) *Route {
 		Preference: ndp.Preference(c.Stanza.Pref),
 		Lifetime:   time.Duration(c.Stanza.ValidNS),
 		TimeNow:    func() time.Time { return time.Unix(1700000000, 0) },
+		Epoch:      time.Unix(1600000000, 0), // as the parser builds it
 		Routes: func() ([]system.Route, error) {
 			if c.SrcErr {
 				return nil, errVerifSource
